@@ -533,6 +533,70 @@ impl Val for Option<std::sync::Arc<Payload>> {
     fn note_guard(&self, _d: isize) {}
 }
 
+// ---- the `Rc` kinds as a stored value (sequential workloads only): a thin wrapper that forwards
+// every `RefCnt` method to the crate's own impls for `Option<Rc<_>>` / `Rc<_>`, so that those impls
+// (which no multi-threaded workload can reach) are driven by the same programs and oracles.
+
+#[derive(Clone, Debug)]
+pub struct RcOpt(pub Option<std::rc::Rc<Payload>>);
+
+// Only ever used by single-threaded programs; the bounds of `Val` are for the concurrent workloads.
+unsafe impl Send for RcOpt {}
+unsafe impl Sync for RcOpt {}
+
+type RcInner = Option<std::rc::Rc<Payload>>;
+
+unsafe impl RefCnt for RcOpt {
+    type Base = Payload;
+    fn into_ptr(me: Self) -> *mut Payload {
+        <RcInner as RefCnt>::into_ptr(me.0)
+    }
+    fn as_ptr(me: &Self) -> *mut Payload {
+        <RcInner as RefCnt>::as_ptr(&me.0)
+    }
+    unsafe fn from_ptr(ptr: *const Payload) -> Self {
+        RcOpt(<RcInner as RefCnt>::from_ptr(ptr))
+    }
+    fn inc(me: &Self) -> *mut Payload {
+        <RcInner as RefCnt>::inc(&me.0)
+    }
+    unsafe fn dec(ptr: *const Payload) {
+        <RcInner as RefCnt>::dec(ptr)
+    }
+}
+
+impl Val for RcOpt {
+    const NAME: &'static str = "Option<Rc>";
+    fn fresh(id: u64) -> Self {
+        ARC_LIVE.fetch_add(1, Relaxed);
+        ALLOCS.fetch_add(1, Relaxed);
+        RcOpt(Some(std::rc::Rc::new(Payload { cell: UnsafeCell::new([id, !id]), vec: vec![id; 3] })))
+    }
+    fn none() -> Self {
+        RcOpt(None)
+    }
+    fn vid(&self) -> u64 {
+        match &self.0 {
+            Some(a) => {
+                let [x, y] = unsafe { std::ptr::read_volatile(a.cell.get()) };
+                if x != !y || a.vec.len() != 3 || a.vec[2] != x {
+                    report("C01", "payload-corrupt", format!("Rc payload ({:#x},{:#x}) corrupt", x, y));
+                }
+                x
+            }
+            None => 0,
+        }
+    }
+    fn addr(&self) -> usize {
+        self.0.as_ref().map(|a| std::rc::Rc::as_ptr(a) as usize).unwrap_or(0)
+    }
+    fn strong(&self) -> usize {
+        self.0.as_ref().map(std::rc::Rc::strong_count).unwrap_or(0)
+    }
+    fn note_owner(&self, _d: isize) {}
+    fn note_guard(&self, _d: isize) {}
+}
+
 // ---- the weak pointer kind as a stored value: the targets are kept alive by a keeper, so the
 // container (which must not keep them alive itself) can be checked by identity; emptying the keeper
 // at the end lets the allocations go once the last Weak is released (LSan / Miri decide that).
